@@ -134,11 +134,19 @@ def nodupO : List (Option Nat) → Bool
   | [] => true
   | a :: as => a.isSome && !as.contains a && nodupO as
 
+def nodupW : List Bytes → Bool
+  | [] => true
+  | a :: as => !as.contains a && nodupW as
+
 def hypsB (K1 : Bytes) (db : DB) (absent : List Bytes) : Bool :=
   let st := storedAddrs cfg lv K1 db
   let fresh := fun (w : Bytes) (j : Nat) => match addr cfg lv K1 w (j : Int) with
     | .ok a => !st.contains (some a) | .error _ => false
   nodupO st &&
+  -- `SSE2.correct`: the validity conditions of the database and the key
+  K1.length == cfg.k.toNat && nodupW (db.map (·.1)) &&
+  db.all (fun p => p.1.length ≤ cfg.l.toNat && (match p.1 with | x :: _ => x != 0 | [] => false)) &&
+  db.all (fun p => p.2.all fun id => (db.flatMap (·.2)).count id ≤ cfg.max) &&
   db.all (fun p => p.2.length ≤ cfg.n.toNat && (p.2.length == cfg.n.toNat || fresh p.1 (1 + p.2.length))) &&
   absent.all (fun w => fresh w 1) &&
   (match encDb cfg lv K1 db [] [] with | .ok (_, cnt) => cnt.all (fun p => p.2 ≤ cfg.max) | .error _ => false)
